@@ -225,7 +225,7 @@ Proof.
      match n with
      | None => ret None st1
      | Some t =>
-       if tyerr E TS_array_elem_none t st1 then ret None (add_err_at (E_type TS_array_elem_none) (here c) st1) else
+       if tyerr E TS_array_elem_none t (here c) then ret None (add_err_at (E_type TS_array_elem_none) (here c) st1) else
        match parse_multiline_ws (S f) st1 with
        | None => None
        | Some st2 => parse_array_elems E pe f (t :: acc) st2
@@ -321,7 +321,7 @@ Lemma slice_total fuel tok left start c :
   here c <= m -> here c < fuel -> okx (here c) (parse_slice E pe fuel tok left start c).
 Proof.
   intros Hm Hf. unfold parse_slice.
-  destruct (tyerr E TS_not_sliceable left c); [fin|].
+  destruct (tyerr E TS_not_sliceable left tok); [fin|].
   assert (D : okx (here c)
     (do (e, st1) <- parse_toplevel E pe fuel c;
      match e with
@@ -331,7 +331,7 @@ Proof.
        if ok then
          let st3 := slice_close E st2 in
          let t := TSlice left start (Some x) in
-         if tyerr E TS_slice_bounds t st3 then ret None (add_err_at (E_type TS_slice_bounds) tok st3) else ret (Some t) st3
+         if tyerr E TS_slice_bounds t tok then ret None (add_err_at (E_type TS_slice_bounds) tok st3) else ret (Some t) st3
        else ret None st2
      end)).
   { destruct (toplevel_total fuel c Hm Hf) as (a & c' & Q1 & Q2 & Q3). rewrite Q1.
@@ -351,7 +351,7 @@ Proof.
   pose proof (here_advance (push_wss false c)) as HA. rewrite here_push_wss in HA.
   destruct (is_ws (prev (push_wss false c))); [fin|].
   set (st1 := advance (push_wss false c)) in *.
-  destruct (tyerr E TS_not_indexable left st1); [fin|].
+  destruct (tyerr E TS_not_indexable left _); [fin|].
   destruct (allow && _).
   - pose proof (here_advance st1).
     destruct (slice_total fuel (here c) left None (advance st1)) as (a & c' & Q1 & Q2 & Q3); [lia|lia|]. rewrite Q1.
@@ -387,7 +387,7 @@ Proof.
   destruct (assert_token T_RPAREN st3) as [ok c4] eqn:A. apply assert_token_eq in A.
   set (st5 := if ok then advance_wss c4 else c4).
   assert (H5 : here st5 <= here c4) by (unfold st5; destruct ok; [rewrite here_advance_wss|]; lia).
-  set (st6 := if tyerr E TS_assert_not_any left st5 then add_err_at (E_type TS_assert_not_any) (here c) st5 else st5).
+  set (st6 := if tyerr E TS_assert_not_any left (here c) then add_err_at (E_type TS_assert_not_any) (here c) st5 else st5).
   assert (H6 : here st6 = here st5) by (unfold st6; destruct (tyerr E _ _ _); reflexivity).
   pose proof (here_pop_wss st6).
   destruct t; unfold ret; do 2 eexists; (split; [reflexivity|]); (split; [lia|intro; lia]).
